@@ -596,6 +596,13 @@ func (t *tr) exec(stmts []ast.Stmt) {
 			}
 			return
 		case *ast.AssignStmt:
+			if len(x.Lhs) == 1 && len(x.Rhs) == 1 && x.Tok == token.DEFINE {
+				// v := <integer expression> : a local, bound once
+				if _, _, ok := intType(t.info.TypeOf(x.Rhs[0])); ok {
+					t.execInit(x)
+					continue
+				}
+			}
 			if len(x.Lhs) != 1 || x.Tok != token.ASSIGN {
 				fail(s, "unsupported assignment")
 			}
